@@ -271,7 +271,7 @@ def generic_lemmas(ctx):
 # ---------------------------------------------------------------------------------------------
 
 X, Y, Z = sympy.symbols("x y z", real=True)
-Q = sympy.symbols("q0 q1 q2", real=True)
+Q = sympy.symbols("q0 q1 q2")     # no assumptions: sqrt(q**2) must stay as written, like on the base scalars
 
 
 def rand_poly(rng, vars_, deg=2, nterms=3):
@@ -304,6 +304,32 @@ def rand_curv_field(rng, s):
     else:
         atoms = [Q[0], Q[0], sin(Q[1]), cos(Q[1]), sin(Q[2]), cos(Q[2])]
     return rand_poly(rng, atoms, deg=rng.choice([1, 2, 3]), nterms=rng.choice([1, 2, 3]))
+
+
+def rand_nonsmooth_field(rng, s):
+    """even roots and inequalities of ONE coordinate (smooth away from that coordinate's zero), times a monomial:
+    (q**2)**(3/2) = |q|^3, sqrt(q**2) = |q|, Piecewise on the sign.  Signed coordinates: every Cartesian one, the
+    azimuth, the cylindrical z; the spherical polar angle is shifted (q2 - 1) so that it changes sign too."""
+    i = rng.randrange(3)
+    u = Q[i] - 1 if (s == "sph" and i == 2) else Q[i]
+    core = rng.choice([(u**2)**Rational(3, 2), sympy.sqrt(u**2), sympy.Piecewise((u**2, u > 0), (-2 * u**2, True)),
+        sympy.sqrt(u**2) * u])
+    other = Q[(i + rng.choice([1, 2])) % 3]
+    if s != "cart" and other in (Q[1],) + ((Q[2],) if s == "sph" else ()):
+        other = sympy.cos(other)
+    return sympy.Integer(rng.choice([-2, 1, 3])) * core * rng.choice([sympy.Integer(1), Q[0], other]) + rng.choice([0, 1]) * Q[0]
+
+
+def signed_point(rng, s, negative):
+    """a point off every coordinate's zero; `negative`: the signed coordinates (x y z / azimuth / cylindrical z) are < 0"""
+    mag = lambda: Rational(rng.randint(3, 28), 10)     # noqa: E731
+    sg = lambda: -1 if negative else rng.choice([-1, 1])    # noqa: E731
+    if s == "cart":
+        return [sg() * mag(), sg() * mag(), sg() * mag()]
+    if s == "cyl":
+        return [mag(), sg() * mag(), sg() * mag()]
+    ph = rng.choice([Rational(4, 10), Rational(7, 10), Rational(16, 10), Rational(23, 10)])
+    return [mag(), sg() * mag(), ph]
 
 
 def coord_map(s, q):
@@ -350,8 +376,12 @@ def rand_point(rng, s, special=False):
     return [r, th, ph]
 
 
+TT = sympy.Symbol("t", real=True)            # a parameter (time) the field may depend on
+PARAM = {TT: Rational(7, 3)}
+
+
 def num(e, q, pt):
-    v = sympy.sympify(e).subs(dict(zip(q, pt)), simultaneous=True)
+    v = sympy.sympify(e).subs(dict(zip(q, pt)), simultaneous=True).subs(PARAM)
     v = sympy.N(v, 40)
     if not (v.is_number and v.is_finite):
         return None
@@ -374,12 +404,14 @@ def inverse_map(s):
     return [rr, sympy.atan2(Y, X), sympy.acos(Z / rr)]
 
 
-def spec_case(kind, s, fields, pts, path="lambda"):
+def spec_case(kind, s, fields, pts, path="lambda", sysobj=None):
     """Evaluate the specification on the real code.  Returns None when it holds at all points, otherwise a dict
     describing the first failing point.  `fields` are expressions (strings are sympified); `path` says how the
-    ScalarField / VectorField object is constructed."""
-    cs, q = make_cs(s)
-    fields = [sympy.sympify(f, locals={"x": X, "y": Y, "z": Z, "q0": Q[0], "q1": Q[1], "q2": Q[2]}) for f in fields]
+    ScalarField / VectorField object is constructed; `sysobj` = (CoordinateSystem, base scalars) to use an existing
+    coordinate-system object (history stream) instead of a fresh one."""
+    cs, q = sysobj if sysobj is not None else make_cs(s)
+    fields = [sympy.sympify(f, locals={"x": X, "y": Y, "z": Z, "q0": Q[0], "q1": Q[1], "q2": Q[2], "t": TT,
+        "Piecewise": sympy.Piecewise, "sqrt": sympy.sqrt}) for f in fields]
     Xq = coord_map(s, q)
     E = local_basis(s, q)
     if kind == "grad":          # fields = [g(x,y,z)]
@@ -443,6 +475,13 @@ def spec_case(kind, s, fields, pts, path="lambda"):
             got, want = run_curl(cs, fns, path), run_curl(cs, full, path)
     else:
         raise ValueError(kind)
+    # the result must be expressed in the base scalars of the field's OWN coordinate-system object
+    from sympy.vector import BaseScalar  # pylint: disable=import-outside-toplevel
+    for i, a in enumerate(got):
+        foreign = [b for b in sympy.sympify(a).atoms(BaseScalar) if b not in q]
+        if foreign:
+            return {"component": i, "point": None, "observed": str(a), "expected": f"an expression in {q}",
+                "foreign_base_scalars": [str(b) for b in foreign], "observed_expr": str(a)}
     for pt in pts:
         pt = [sympy.sympify(c) for c in pt]
         for i, (a, b) in enumerate(zip(got, want)):
@@ -487,6 +526,20 @@ def spec_stream(ctx, n_per, only=None):
                     pts.append(rand_point(rng, s, special=True))      # the plane phi = pi/2
                 cases.append({"kind": kind, "sys": s, "path": path, "fields": [str(f) for f in fields],
                     "points": [[str(c) for c in p] for p in pts]})
+    # non-smooth fields (even roots / inequalities of a coordinate) at points whose signed coordinates are negative
+    n_ns = max(2, n_per // 3)
+    for s in SYSTEMS:
+        for kind in ("grad_local", "div_local", "curl_local"):
+            if only is not None and (kind, s) not in only:
+                continue
+            for j in range(n_ns):
+                nf = 1 if kind == "grad_local" else 3
+                fields = [rand_nonsmooth_field(rng, s) if (k == j % nf or kind == "grad_local") else rand_curv_field(rng, s)
+                    for k in range(nf)]
+                paths = SPATHS if kind == "grad_local" else VPATHS
+                cases.append({"kind": kind, "sys": s, "path": paths[j % len(paths)], "flavour": "nonsmooth",
+                    "fields": [str(f) for f in fields],
+                    "points": [[str(c) for c in signed_point(rng, s, True)], [str(c) for c in signed_point(rng, s, False)]]})
     bad = []
     for c in cases:
         try:
@@ -498,12 +551,57 @@ def spec_stream(ctx, n_per, only=None):
     return cases, bad
 
 
+HISTORY_FIELDS = {
+    "grad_local": [["5"], ["t**2"], ["q0*q2 + t"]],
+    "div_local": [["1", "0", "0"], ["3"], ["2", "-1", "5"], ["t", "0", "2*t"], ["0", "0", "1"], ["q0", "1", "q2"]],
+    "curl_local": [["0", "1", "0"], ["3"], ["2", "-1", "5"], ["t", "0", "2*t"], ["0", "0", "1"], ["q0", "1", "q2"]],
+}
+
+
+def history_stream(ctx):
+    """Several coordinate-system OBJECTS of the same type in one process; the same scalar-free (constant /
+    parameter-only) field is evaluated in system A, then B, then C, then A again.  Every result must be expressed in
+    the base scalars of its own system and satisfy the specification -- i.e. be what the same call gives first."""
+    cases, bad = [], []
+    for s in SYSTEMS:
+        systems = [make_cs(s) for _ in range(3)]
+        for kind, flist in HISTORY_FIELDS.items():
+            paths = SPATHS if kind == "grad_local" else VPATHS
+            for fi, fields in enumerate(flist):
+                for path in (paths if not ctx.quick else [paths[(fi + 1) % len(paths)], paths[(fi + 2) % len(paths)]]):
+                    pts = [[str(c) for c in signed_point(ctx.rng, s, False)]]
+                    c = {"kind": kind, "sys": s, "path": path, "fields": fields, "points": pts, "flavour": "history",
+                        "history": "the same field in 3 coordinate-system objects of this type, order A B C A"}
+                    cases.append(c)
+                    for step, k in enumerate((0, 1, 2, 0)):
+                        try:
+                            r = spec_case(kind, s, fields, pts, path, sysobj=systems[k])
+                        except Exception as e:  # pylint: disable=broad-except
+                            r = {"exception": f"{type(e).__name__}: {e}"}
+                        if r is not None:
+                            r["history_step"] = f"system object #{k} (step {step} of A B C A)"
+                            bad.append((c, r))
+                            break
+    return cases, bad
+
+
+def replay_history(c):
+    s = c["sys"]
+    systems = [make_cs(s) for _ in range(3)]
+    for step, k in enumerate((0, 1, 2, 0)):
+        r = spec_case(c["kind"], s, c["fields"], c["points"], c.get("path", "lambda"), sysobj=systems[k])
+        if r is not None:
+            r["history_step"] = f"system object #{k} (step {step} of A B C A)"
+            return r
+    return None
+
+
 OP_OF_KIND = {"grad": "grad", "div": "div", "curl": "curl", "curlgrad": "curlgrad", "divcurl": "divcurl",
     "pad_div": "div", "pad_curl": "curl", "grad_local": "grad", "div_local": "div", "curl_local": "curl"}
 
 
 def report_spec(ctx, c, r):
-    key = f"C12:spec:{c['kind']}:{c['sys']}"
+    key = f"C12:{'history' if c.get('flavour') == 'history' else 'spec'}:{c['kind']}:{c['sys']}"
     what = (f"{c['kind']} in {c['sys']} coordinates contradicts the property on the field {c['fields']} (field object built by "
         f"{c.get('path', 'lambda')}) at "
         f"{r.get('point')}: component {r.get('component')} is {r.get('observed')}, expected {r.get('expected')}"
@@ -601,6 +699,13 @@ def run(ctx):
     ctx.evaluated(len(cases), len({(c["kind"], c["sys"], tuple(c["fields"])) for c in cases}))
     if cases:
         ctx.sample({"spec_case": cases[0]})
+    hcases, hbad = history_stream(ctx)
+    for c, r in hbad:
+        report_spec(ctx, c, r)
+    spec_bad_keys |= {(OP_OF_KIND[c["kind"]], c["sys"]) for c, _ in hbad}
+    ctx.evaluated(4 * len(hcases), len(hcases))
+    ctx.coverage["history_cases"] = len(hcases)
+    ctx.coverage["history_failures"] = len(hbad)
     ctx.coverage["spec_cases"] = len(cases)
     ctx.coverage["spec_failures"] = len(bad)
     ctx.log(f"spec stream: {len(cases)} cases, {len(bad)} failing")
@@ -654,6 +759,12 @@ def run(ctx):
 
 
 def replay(ctx, rep):
+    if rep.get("kind") == "spec" and rep["input"].get("flavour") == "history":
+        c = rep["input"]
+        r = replay_history(c)
+        print(f"replay history {c['kind']}[{c['sys']}] built by {c.get('path')} fields={c['fields']} in 3 system objects (A B C A)")
+        print("specification holds now" if r is None else f"still failing: {r}")
+        return 0 if r is None else 1
     if rep.get("kind") == "spec":
         c = rep["input"]
         r = spec_case(c["kind"], c["sys"], c["fields"], c["points"], c.get("path", "lambda"))
